@@ -270,9 +270,10 @@ int main(int argc, char** argv) {
     const bool T = true /* the wide lattices run in both tiers */; const bool D = R.thorough(); (void)D;
     std::vector<unsigned> ns = T ? std::vector<unsigned>{8, 9, 12, 16, 17, 32} : std::vector<unsigned>{8, 9};
     std::vector<unsigned> nbs = T ? std::vector<unsigned>{1, 2, 3, 4} : std::vector<unsigned>{1, 2};
+    if (D) { ns.push_back(33); ns.push_back(48); nbs.push_back(5); }      // thorough: larger grids, more bunches
     part_kick(ns, nbs);
     part_ctor(T ? std::vector<unsigned>{12, 16, 17, 32} : std::vector<unsigned>{12, 13}, T ? std::vector<unsigned>{1, 2, 3} : nbs);
-    std::vector<unsigned> fpn; if (T) for (unsigned n = 12; n <= 65; n++) fpn.push_back(n); else fpn = {12, 16, 17};
+    std::vector<unsigned> fpn; if (T) for (unsigned n = 12; n <= (D ? 129u : 65u); n++) fpn.push_back(n); else fpn = {12, 16, 17};
     part_fp(fpn, T ? std::vector<int>{-3, -2, -1, 0, 1, 2, 3} : std::vector<int>{0, 2, -1});
     return R.finish();
 }
